@@ -27,7 +27,7 @@ m = {
     "setup_cmd": "cd /verif/symgo && PATH=/opt/veriftools/go1.26.8/bin:$PATH GOTOOLCHAIN=local GOFLAGS=-mod=mod GOPROXY=off GOSUMDB=off go build -o /verif/bin/symgo .",
     "hooks": {
         "guard": "verif",
-        "enable": "go build/test -tags verif (no hook commit exists in this revision: harnesses are injected with go/packages overlays and go test -overlay, nothing is written to /repo)",
+        "enable": "go build/test -tags verif (no hook commit exists in this revision: harnesses are injected with go/packages overlays and go test -overlay, nothing is written to /repo; the schedule points of C04 are inserted into an overlay copy of pkg/machine/machine.go regenerated from the current tree on every run)",
         "baseline_off_cmd": "for m in $(cat /w/out/gomods.txt); do MF=$(cd /repo/$m && . /w/out/goenv.sh && gomodflag); (cd /repo/$m && go test $MF -json -vet=off -count=1 -timeout 25m ./...); done",
         "source_commits": T.HOOK_COMMITS,
         "add_only": True,
